@@ -417,7 +417,7 @@ func SolveWithQF(query, qf string, timeoutS int, confirm bool, tag string) Solve
 	}
 	ctx, cancel := context.WithCancel(context.Background())
 	defer cancel()
-	ch := make(chan ans, len(solvers)+1)
+	ch := make(chan ans, len(solvers)+2)
 	var wg sync.WaitGroup
 	for _, sp := range solvers {
 		wg.Add(1)
@@ -434,15 +434,17 @@ func SolveWithQF(query, qf string, timeoutS int, confirm bool, tag string) Solve
 			qfFile.WriteString(qf)
 			qfFile.Close()
 			defer os.Remove(qfName)
-			wg.Add(1)
-			go func() {
-				defer wg.Done()
-				st, out, secs := runOne(ctx, solvers[0], qfName, timeoutS)
-				if st != "unsat" {
-					st, out = "cancelled", "" // a weakened query that is not refuted says nothing
-				}
-				ch <- ans{"z3-new-qf", st, out, secs}
-			}()
+			for _, sp := range []solverSpec{solvers[0], solvers[2]} {
+				wg.Add(1)
+				go func(sp solverSpec) {
+					defer wg.Done()
+					st, out, secs := runOne(ctx, sp, qfName, timeoutS)
+					if st != "unsat" {
+						st, out = "cancelled", "" // a weakened query that is not refuted says nothing
+					}
+					ch <- ans{sp.name + "-qf", st, out, secs}
+				}(sp)
+			}
 		}
 	}
 	go func() { wg.Wait(); close(ch) }()
